@@ -1900,6 +1900,115 @@ _SPLITS_REQUIRE = {
 }
 
 
+
+# ---------------------------------------------------------------------------
+# the real asyncio backend sockets under an expired deadline ("an expired deadline is an error, never
+# a short message"): the other parts replace the backend by scripted sockets, this one keeps the
+# library's own socket wrappers and replaces only the transport beneath them
+
+
+def backend_deadline_cases():
+    out = []
+    for api in ("dgram.recvfrom", "stream.recv", "receive_udp", "receive_tcp"):
+        for deadline in ("timeout0", "expired", "none", "far"):
+            for data in ("never", "late", "late-fragmented", "buffered"):
+                if api in ("dgram.recvfrom", "stream.recv") and deadline == "expired":
+                    continue  # these take a timeout, not an expiration
+                if deadline in ("none", "far") and data == "never":
+                    continue  # would (rightly) wait
+                out.append({"api": api, "deadline": deadline, "data": data})
+    return out
+
+
+def run_backend_deadline(case):
+    import socket
+    import time
+
+    import dns._asyncio_backend as B
+    import dns.asyncquery
+    import dns.exception
+    import dns.message
+
+    q = dns.message.make_query("www.example.", "A", id=4660)
+    r = dns.message.make_response(q)
+    wire = r.to_wire()
+    frame = len(wire).to_bytes(2, "big") + wire
+    peer = ("192.0.2.1", 53)
+    api, deadline, data = case["api"], case["deadline"], case["data"]
+    expired = deadline in ("timeout0", "expired")
+
+    class Transport:
+        def get_extra_info(self, what):
+            return peer if what == "peername" else ("192.0.2.9", 5353)
+
+        def close(self):
+            pass
+
+    class Writer(Transport):
+        def write(self, b):
+            pass
+
+        async def drain(self):
+            pass
+
+    async def main():
+        loop = asyncio.get_running_loop()
+        if api in ("dgram.recvfrom", "receive_udp"):
+            proto = B._DatagramProtocol()
+            sock = B._DatagramSocket(socket.AF_INET, Transport(), proto)
+
+            def deliver(piece=None):
+                proto.datagram_received(wire, peer)
+        else:
+            reader = asyncio.StreamReader()
+            sock = B._StreamSocket(socket.AF_INET, reader, Writer())
+
+            def deliver(piece=None):
+                reader.feed_data(frame if piece is None else piece)
+        if data == "buffered":
+            deliver()
+        elif data == "late":
+            loop.call_later(0.05, deliver)
+        elif data == "late-fragmented":
+            if api in ("dgram.recvfrom", "receive_udp"):
+                loop.call_later(0.05, deliver)
+            else:
+                loop.call_later(0.03, deliver, frame[:1])
+                loop.call_later(0.06, deliver, frame[1:7])
+                loop.call_later(0.09, deliver, frame[7:])
+        timeout = {"timeout0": 0, "none": None, "far": 30.0}.get(deadline)
+        expiration = {"timeout0": time.time() - 0.001, "expired": time.time() - 10.0, "none": None, "far": time.time() + 30.0}[deadline]
+        if api == "dgram.recvfrom":
+            return await sock.recvfrom(65535, timeout)
+        if api == "stream.recv":
+            return await sock.recv(2, timeout)
+        if api == "receive_udp":
+            return await dns.asyncquery.receive_udp(sock, peer, expiration, query=q)
+        return await dns.asyncquery.receive_tcp(sock, expiration)
+
+    async def guarded():
+        # the watchdog only ends a wait the library should never have started
+        return await asyncio.wait_for(main(), 10.0)
+
+    loop = asyncio.new_event_loop()
+    try:
+        try:
+            res = loop.run_until_complete(guarded())
+            outcome = "returned"
+        except dns.exception.Timeout:
+            outcome = "Timeout"
+        except asyncio.TimeoutError:
+            outcome = "waits-forever"
+    finally:
+        loop.close()
+    classes = ["bd:" + api, "bd:" + deadline, "bd:" + outcome]
+    if expired and outcome != "Timeout":
+        raise Violation("deadline", f"asyncio backend, {api}, deadline {deadline}, data {data}: the deadline has expired but the call {'returned ' + repr(res)[:80] if outcome == 'returned' else 'kept waiting'}", f"backend-deadline:{api}:{outcome}")
+    if not expired and outcome != "returned":
+        raise Violation("deadline", f"asyncio backend, {api}, deadline {deadline}, data {data}: data arrives within the deadline but the call ended as {outcome}", f"backend-live:{api}:{outcome}")
+    return {"nontrivial": True, "classes": classes}
+
+
 def parts(tier):
     return [
         Part(
@@ -1919,5 +2028,10 @@ def parts(tier):
             shards={"quick": 4, "thorough": 16},
             case_timeout_s=10.0,
             require=_SPLITS_REQUIRE,
+        ),
+        Part(
+            "backend_deadline", run_backend_deadline, cases=backend_deadline_cases,
+            shards={"quick": 8, "thorough": 8}, case_timeout_s=40.0,
+            require={"bd:Timeout": 10, "bd:returned": 10},
         ),
     ]
